@@ -65,7 +65,15 @@ Write(D) == WriteNode(D, 1) \o CmToks(D[1].cm) \o <<P(";")>>
 \* st: [phase, N, stack, cur, prev, level]
 \*   phase: "pre" (before the first token), "pre2" (a leading comment was read), "run", "ok", "err"
 \*   cur = 0 : no current node;  the branch of cur is "nil" exactly when cur is the root
-InitState == [phase |-> "pre", N |-> <<>>, stack |-> <<>>, cur |-> 0, prev |-> "none", level |-> 0]
+\*   stale: the parser's error variable holds the failure of an ATTEMPT (a label "x/y" after ")" tried as support/p-value
+\*          and found not to be two numbers): the label becomes a name, but the variable is only overwritten by the next
+\*          step that assigns it (")", ",", a comment, a length below the root, a numeric label) and is what ";" returns.
+\*          Only reachable with a branch at level 0, i.e. on malformed text; transcribed so that model and code agree there.
+InitState == [phase |-> "pre", N |-> <<>>, stack |-> <<>>, cur |-> 0, prev |-> "none", level |-> 0, stale |-> FALSE]
+
+\* words of the model alphabet that split in two parts at "/" without being number/number
+TwoPartWords == {"0.25/b"}
+TwoPart(tok) == tok.k = "w" /\ tok.num = 0 /\ tok.tx \in TwoPartWords
 
 Err(st) == [st EXCEPT !.phase = "err"]
 HasEdge(st) == st.cur # 0 /\ st.N[st.cur].par # 0
@@ -86,35 +94,36 @@ RunStep(st, tok) ==
     [] tok.k = ")" ->
          IF Len(st.stack) = 0 THEN Err(st)
          ELSE LET s2 == SubSeq(st.stack, 1, Len(st.stack) - 1)
-              IN  [st EXCEPT !.stack = s2, !.cur = HeadOf(s2), !.level = @ - 1, !.prev = ")"]
+              IN  [st EXCEPT !.stack = s2, !.cur = HeadOf(s2), !.level = @ - 1, !.prev = ")", !.stale = FALSE]
     [] tok.k = "cm" ->
          IF ~tok.ok THEN Err(st)
-         ELSE IF st.prev = ":" /\ HasEdge(st) THEN [st EXCEPT !.N[st.cur].ecm = Append(@, tok.tx), !.prev = "]"]
-         ELSE IF st.prev = ":" /\ st.cur # 0 THEN [st EXCEPT !.N[st.cur].cm = Append(@, tok.tx), !.prev = "]"]
-         ELSE IF st.prev \in {")", "w", "]"} /\ st.cur # 0 THEN [st EXCEPT !.N[st.cur].cm = Append(@, tok.tx), !.prev = "]"]
+         ELSE IF st.prev = ":" /\ HasEdge(st) THEN [st EXCEPT !.N[st.cur].ecm = Append(@, tok.tx), !.prev = "]", !.stale = FALSE]
+         ELSE IF st.prev = ":" /\ st.cur # 0 THEN [st EXCEPT !.N[st.cur].cm = Append(@, tok.tx), !.prev = "]", !.stale = FALSE]
+         ELSE IF st.prev \in {")", "w", "]"} /\ st.cur # 0 THEN [st EXCEPT !.N[st.cur].cm = Append(@, tok.tx), !.prev = "]", !.stale = FALSE]
          ELSE Err(st)
     [] tok.k = "]" -> Err(st)
     [] tok.k = "len" ->
          IF ~tok.ok THEN Err(st)
          ELSE IF st.cur # 0 /\ st.level # 0
               THEN IF ~HasEdge(st) \/ st.N[st.cur].len # NILV THEN Err(st)
-                   ELSE [st EXCEPT !.N[st.cur].len = tok.v, !.prev = ":"]
+                   ELSE [st EXCEPT !.N[st.cur].len = tok.v, !.prev = ":", !.stale = FALSE]
               ELSE IF st.level = 0 THEN [st EXCEPT !.prev = ":"]      \* a length on the root is ignored
               ELSE Err(st)
     [] tok.k = "," ->
          IF Len(st.stack) = 0 THEN Err(st)
          ELSE LET s2 == SubSeq(st.stack, 1, Len(st.stack) - 1)
-              IN  [st EXCEPT !.stack = s2, !.cur = HeadOf(s2), !.prev = ","]
+              IN  [st EXCEPT !.stack = s2, !.cur = HeadOf(s2), !.prev = ",", !.stale = FALSE]
     [] tok.k = "w" ->
          IF st.prev = ")"
          THEN \* support, support/p-value or name of the node just closed; prev stays ")"
               IF tok.num = 1
-              THEN IF st.level = 0 \/ ~HasEdge(st) THEN st ELSE [st EXCEPT !.N[st.cur].sup = tok.v]
-              ELSE IF tok.num = 2 /\ HasEdge(st) THEN [st EXCEPT !.N[st.cur].sup = tok.v, !.N[st.cur].pv = tok.v2]
-              ELSE IF st.cur = 0 THEN Err(st) ELSE [st EXCEPT !.N[st.cur].nm = tok.tx]
+              THEN IF st.level = 0 \/ ~HasEdge(st) THEN st ELSE [st EXCEPT !.N[st.cur].sup = tok.v, !.stale = FALSE]
+              ELSE IF tok.num = 2 /\ HasEdge(st) THEN [st EXCEPT !.N[st.cur].sup = tok.v, !.N[st.cur].pv = tok.v2, !.stale = FALSE]
+              ELSE IF st.cur = 0 THEN Err(st)
+              ELSE [st EXCEPT !.N[st.cur].nm = tok.tx, !.stale = IF TwoPart(tok) /\ HasEdge(st) THEN TRUE ELSE @]
          ELSE IF st.prev \notin {"(", ","} \/ st.cur = 0 THEN Err(st)
               ELSE [AddChild(st, tok.tx) EXCEPT !.prev = "w"]
-    [] tok.k = ";" -> IF st.level # 0 THEN Err(st) ELSE [st EXCEPT !.phase = "ok"]
+    [] tok.k = ";" -> IF st.level # 0 \/ st.stale THEN Err(st) ELSE [st EXCEPT !.phase = "ok"]
     [] tok.k = "eof" -> Err(st)         \* the end of the text before ";" is always an error
     [] OTHER -> Err(st)
 
